@@ -363,6 +363,31 @@ Theorem C07_store_history_terminates :
 Proof. exact store_history_terminates. Qed.
 Print Assumptions C07_store_history_terminates.
 
+(* ---- refinement of the specification, with tag names ----
+   [spec_preds content blobs n] computes the answer from the stored set alone (the stored
+   nodes whose successors contain n).  After every history of the full operation language --
+   Push, Tag / Untag BY NAME (the model keeps the reference -> node map; a name that moves is
+   taken from the node that had it), Delete, GC, reopen, foreign index, AutoSaveIndex on/off,
+   SaveIndex -- the store's Predecessors is a permutation of it. *)
+Theorem C07_store_refines_spec :
+  forall (content : node -> list node) (isman : node -> bool) (rank : node -> nat),
+    (forall p, content p <> [] -> isman p = true) ->
+    (forall p c, In c (content p) -> (rank c < rank p)%nat) ->
+    forall fuel ops n,
+      let r := nrun content isman fuel ops in
+      snd r = true ->
+      Permutation (predecessors (o_graph (a_s (fst r))) n)
+                  (spec_preds content (o_blobs (a_s (fst r))) n).
+Proof. exact names_refines_spec. Qed.
+Print Assumptions C07_store_refines_spec.
+
+Example C07_store_names_example :
+  let r := nrun (ctab pf_ct) pf_isman 50
+             [NOp (AOp (PPush 0%N)); NOp (AOp (PPush 2%N)); NOp (AOp (PPush 3%N));
+              NTag 2%N 7%N; NTag 3%N 7%N; NOp (AOp (PGC []))] in
+  snd r = true /\ o_tagged (a_s (fst r)) = [3%N] /\ predecessors (o_graph (a_s (fst r))) 0%N = [2%N].
+Proof. exact names_example. Qed.
+
 (* Scope: [ops] are operations that COMPLETE.  An operation aborted by the environment
    half-way is not covered, and the statement is false there: a Delete whose unlink fails
    after Untag / graph.Remove / saveIndex (EPERM, open handle on NTFS) leaves the blob stored
